@@ -359,7 +359,9 @@ def evalEN (cfg : ECfg) (al : List (Str × Val)) (env : Env) : Nat → EN → XM
         | .excClass _, _ | _, .excClass _ => xUnsupported "comparison with the cancel marker"
         | _, _ => do let b ← xLiftR (Val.pyEq x y); pure (.bool b)
     | .subst tok esc dflt literalFalse => do
-      let v ← evalValue cfg al env tok esc dflt
+      -- the engine of a Substitution is created without char_escape: nested `string:` parts are
+      -- converted unescaped, only the outer `assign_text` escapes
+      let v ← evalValue cfg al env tok .none dflt
       substTail cfg esc dflt literalFalse v
     | .boolean tok s dflt => do
       let v ← evalValue cfg al env tok .none dflt
@@ -575,10 +577,10 @@ def eval (cfg : ECfg) (al : List (Str × Val)) : Nat → Node → RM Unit
         | .str s => pure (s.map (fun ch => Val.str [ch]))
         | .dict kvs => pure (kvs.map (·.1))
         | _ => mUnsupported "iterable class"
+      -- the RepeatDict key is the name, or the tuple of names (not reachable by a template expression)
       let key : Str := match names with
         | [nm] => nm.str
-        | _ => []
-      if names.length != 1 then mUnsupported "tuple repeat key" else
+        | _ => (names.map (fun nm => nm.str ++ [44])).flatten
       modEnv (fun e => { e with repeats := (key, { length := items.length, consumed := 0 }) :: e.repeats.filter (·.1 != key) })
       names.forM (fun nm => setVar nm.str .none)
       evalRepeat cfg al f key names local_ ws node items items.length
@@ -663,6 +665,7 @@ def evalDefine (cfg : ECfg) (al : List (Str × Val)) : Nat → List Assign → N
       | _ => do
         let vs ← match v with
           | .list vs | .tuple vs => pure vs
+          | .none | .bool _ | .int _ => mRaise { cls := "TypeError", msg := [] }
           | _ => mUnsupported "unpacking of this class"
         if vs.length != names.length then
           mRaise { cls := "ValueError", msg := [] }
@@ -682,7 +685,15 @@ def evalRepeat (cfg : ECfg) (al : List (Str × Val)) : Nat → Str → List Tok 
     | [nm] => do
       setVar nm.str item
       if !local_ then setGlobal nm.str item else pure ()
-    | _ => mUnsupported "tuple repeat"
+    | _ => do
+      let vs ← match item with
+        | .list vs | .tuple vs => pure vs
+        | .none | .bool _ | .int _ => mRaise { cls := "TypeError", msg := [] }
+        | _ => mUnsupported "unpacking of this class"
+      if vs.length != names.length then mRaise { cls := "ValueError", msg := [] }
+      else do
+        (names.zip vs).forM (fun (nm, x) => setVar nm.str x)
+        if !local_ then (names.zip vs).forM (fun (nm, x) => setGlobal nm.str x) else pure ()
     eval cfg al f node
     if remaining - 1 > 0 then emit ws else pure ()
     evalRepeat cfg al f key names local_ ws node rest (remaining - 1)
